@@ -140,6 +140,7 @@ Definition split_colon_separated_string (s : text) : option (list text * text) :
 Section WithValues.
 Variable V : Type.
 Variable coerce : text -> V.       (* ini.coerce_value *)
+Variable is_none : V -> bool.      (* `value is None` *)
 
 Inductive cfg := Leaf (v : V) | Dict (l : list (key * cfg)).
 Definition dict := list (key * cfg).
@@ -396,10 +397,22 @@ Definition fluff_init (defaults configs overrides : dict) : res dict :=
 (* what a root config hands to its children (make_child_from_path): extra path, ignore flag, overrides *)
 Record root := mkRoot { r_defaults : dict; r_extra : option path; r_ignore_local : bool; r_overrides : dict }.
 
-(* FluffConfig.from_path / make_child_from_path *)
-Definition from_path (f : fsys) (e : env) (rt : root) (pth : path) : res dict :=
+(* FluffConfig.__init__, after the combination: _dialect = self._configs["core"]["dialect"]; a dialect that is None is a
+   SQLFluffUserError ("No dialect was specified") when require_dialect.  (An unknown dialect name is outside the model.) *)
+Definition dialect_key : key := lit "dialect".
+Definition dialect_check (require_dialect : bool) (c : dict) : res unit :=
+  match lookup [core; dialect_key] c with
+  | Some (Leaf v) => if is_none v && require_dialect then Err ERuntime else Ok tt
+  | Some (Dict _) => Err EAssert                              (* assert _dialect is None or isinstance(_dialect, str) *)
+  | None => Err EKey
+  end.
+
+(* FluffConfig.from_path; make_child_from_path(path) is from_path with require_dialect = True *)
+Definition from_path (f : fsys) (e : env) (rt : root) (require_dialect : bool) (pth : path) : res dict :=
   do configs <- load_config_up_to_path f e pth (r_extra rt) (r_ignore_local rt);
-  fluff_init (r_defaults rt) configs (r_overrides rt).
+  do c <- fluff_init (r_defaults rt) configs (r_overrides rt);
+  do _ <- dialect_check require_dialect c;
+  Ok c.
 
 (* FluffConfig.set_value(config_path, val) with len(config_path) >= 2 (the caller has put "core" in front).
    dict_buff[-1].get(elem, {}) returns whatever sits at elem; a non-dict there makes the later item assignment / .get fail
@@ -445,14 +458,16 @@ Definition process_raw_file_for_config (d : dict) (raw : text) : res dict :=
             (splitlines raw) (Ok d).
 
 (* ---- linter: the config a file is linted with ---------------------------------------------------------------------- *)
-(* Linter.load_raw_file_and_config(fname, root_config) *)
-Definition file_config (f : fsys) (e : env) (rt : root) (sqlfile : path * text) : res dict :=
-  do c <- from_path f e rt (fst sqlfile);
+(* Linter.load_raw_file_and_config(fname, root_config): root_config.make_child_from_path(fname) -- which requires the
+   dialect BEFORE the file is read -- and then the file's inline directives.  (require_dialect = false is the same pipeline
+   with FluffConfig.from_path(..., require_dialect=False).) *)
+Definition file_config (f : fsys) (e : env) (rt : root) (require_dialect : bool) (sqlfile : path * text) : res dict :=
+  do c <- from_path f e rt require_dialect (fst sqlfile);
   process_raw_file_for_config c (snd sqlfile).
 
 (* a run over a sequence of files (Linter.lint_paths, sequential runner) *)
 Definition run (f : fsys) (e : env) (rt : root) (files : list (path * text)) : list (res dict) :=
-  map (file_config f e rt) files.
+  map (file_config f e rt true) files.
 
 (* Linter.parse_string / lint_string: a copy of the given config plus the string's inline directives *)
 Definition string_config (base : dict) (raw : text) : res dict := process_raw_file_for_config base raw.
@@ -537,6 +552,7 @@ Definition load_config_up_to_path_c (f : fsys) (e : env) (pth : path) (extra : o
 Definition file_config_c (f : fsys) (e : env) (rt : root) (sqlfile : path * text) : M dict :=
   mbind (load_config_up_to_path_c f e (fst sqlfile) (r_extra rt) (r_ignore_local rt)) (fun configs =>
   mlift (do c <- fluff_init (r_defaults rt) configs (r_overrides rt);
+         do _ <- dialect_check true c;
          process_raw_file_for_config c (snd sqlfile))).
 
 (* the run with the caches threaded from file to file; a failing file does not stop the run (each file has its own result) *)
